@@ -12,6 +12,8 @@ MODELS = {
                   names={'in_a': 'Sheet1!$A$1', 'rng': 'Sheet1!$A$1:$A$2', 'out': 'Sheet1!$B$2'}, inputs=['A1', 'A2']),
     'sheets': dict(cells={'Sheet1!A1': 4, 'Data!A1': 10, 'Data!B1': '=A1*2', 'Sheet1!B1': '=Data!B1+A1', 'Sheet1!C1': '=B1+Data!A1', 'Sheet1!D1': '=$A$1+1'},
                    names={}, inputs=['Sheet1!A1', 'Data!A1']),
+    'zeros': dict(cells={'A1': 7, 'A2': 0, 'A3': False, 'A4': 3.5, 'B1': '=AVERAGE(A1:A4)', 'B2': '=COUNT(A1:A4)&"/"&COUNTA(A1:A4)', 'C1': '=MIN(A1:A4)+B1'},
+                  names={}, inputs=['A1']),
     'deep': dict(cells={'A1': 1, 'A2': '=A1+1', 'A3': '=A2+1', 'A4': '=A3+1', 'A5': '=A4+A2', 'B1': '=SUM(A1:A5)'}, names={}, inputs=['A1']),
 }
 
